@@ -753,6 +753,9 @@ func c04CheckCopy(r *core.Run, b *atlas.Built, cop string) *core.Fail {
 				return // refusal
 			}
 			var flat []interface{}
+			if outs[0].Kind() == reflect.Interface {
+				outs[0] = outs[0].Elem() // the type-generic forms return interface{}
+			}
 			flatten(outs[0], &flat)
 			if len(flat) != len(vals) {
 				fails = append(fails, fmt.Sprintf("%s: %d elements, expected %d", name, len(flat), len(vals)))
@@ -768,10 +771,13 @@ func c04CheckCopy(r *core.Run, b *atlas.Built, cop string) *core.Fail {
 		switch rk {
 		case 1:
 			try("Vector", fns[0])
+			try("Vector(generic)", native.Vector)
 		case 2:
 			try("Matrix", fns[1])
+			try("Matrix(generic)", native.Matrix)
 		case 3:
 			try("Tensor3", fns[2])
+			try("Tensor3(generic)", native.Tensor3)
 		}
 		// Select(axis) yields rows of the array flattened after the axis: same flat order for every axis
 		for ax := 0; ax < rk; ax++ {
